@@ -225,7 +225,8 @@ func inGoverter(fn *ssa.Function) bool {
 	for f := fn; f != nil; f = f.Parent() {
 		if f.Pkg != nil {
 			p := f.Pkg.Pkg.Path()
-			return p == GoverterModule || strings.HasPrefix(p, GoverterModule+"/")
+			// go/ast is plain data + small pure methods: executed like goverter's own code
+			return p == GoverterModule || strings.HasPrefix(p, GoverterModule+"/") || p == "go/ast"
 		}
 	}
 	// instantiated generics / wrappers: use the origin or the object package
